@@ -28,7 +28,8 @@ RULE = ("per-run seed -> one deletion-free document sequence committed under 2-3
         "length, N, df, average length); (a) scores must be equal across layouts, across collectors (unlimited / limited / "
         "with a filter) and must not depend on which other documents match. Non-trivial = >=2 layouts and >=1 query with "
         "matches; distinct = distinct SHA-256 over the layouts' event logs."
-        ' 30% of runs delete + optimize after a layout was measured and re-check formula and composition on the live documents.')
+        ' 30% of runs delete + optimize after a layout was measured and re-check formula and composition on the live documents.'
+        ' One-clause compounds; a boost multiplies whatever a prefix expands to.')
 ASSUMPTIONS = ["documented composition: And/Or sum over the clauses that match the document, DisjunctionMax maximum, Require/AndNot first operand, AndMaybe first plus second when present, ConstantScoreQuery its constant, each times the query boost",
                "formulas from the BM25F/TF_IDF/Frequency docstrings: idf = ln(N/(df+1))+1; bm25 = idf*tf*(K1+1)/(tf+K1*((1-B)+B*fl/avgfl)); tf_idf = tf*idf; frequency = tf",
                "PL2/DFree/Function/Multi/Reverse are covered by clauses (a) and (b) only (their formulas would have to be copied from the source, which is not an oracle)",
